@@ -118,6 +118,16 @@ CLAIMED = {
               'four defects found and fixed'),
         technique='CBMC bounded model checking per expression tree (program enumerated, inputs symbolic)',
         design='3/C17'),
+    'C16': dict(
+        text=('Bounded model checking of the static rounding functions of src/dround.c: value rounding of hour/minute/'
+              'second (every time, target, direction, --next), co-class rounding of the time of day and of epoch values '
+              '(negative included) for enumerated divisors of 86400, day-of-month, month and weekday targets for every '
+              'day of the year windows, idempotence and the day carry through dt_round. Reference: field == target, '
+              'finer fields kept, requested side, no nearer candidate.'),
+        note=('targets as parsed durations (dt_io_strpdtrnd text not covered); business-day and ISO-week targets not '
+              'covered; divisors enumerated (12 quick / 96 thorough); two defects found and fixed'),
+        technique='CBMC bounded model checking of dround kernels against a relational nearest-target reference',
+        design='3/C16'),
 }
 
 NA = {}
